@@ -6,7 +6,7 @@ import json, os, re, time
 # OCaml driver (model extracted from Coq).  A projection keeps only what the property constrains.
 
 
-def ident(s):
+def ident(s, case=None):
     return s
 
 
@@ -184,6 +184,215 @@ prop('C15',
           'checked on the implementation); distinct = distinct (text, offset) or text; non-trivial = contains a line '
           'break before the offset / at least 3 tokens')
 
+
+# ---- evaluator observations:  <outcome>|<final data map>|<host calls>
+
+import struct
+
+
+def _f32(x):
+    try:
+        return struct.unpack('f', struct.pack('f', x))[0]
+    except OverflowError:
+        return float('inf') if x > 0 else float('-inf')
+
+
+def _norm_floats(text, f32_positions=None):
+    """G<hex spelling> tokens -> canonical float (the model carries the decimal, the implementation the float)"""
+    out = []
+    for i, tok in enumerate(text.split(' ')):
+        if tok.startswith('G') and len(tok) > 1:
+            try:
+                v = float(bytes.fromhex(tok[1:]).decode())
+                if f32_positions is not None and i in f32_positions:
+                    v = _f32(v)
+                tok = 'G' + repr(v)
+            except Exception:
+                pass
+        out.append(tok)
+    return ' '.join(out)
+
+
+def _host_param_types(case):
+    """hosts spec of an EV case -> {id: (ctx, variadic, [types])}"""
+    f = (case or '').split('\t')
+    res = {}
+    if len(f) < 5 or f[0] != 'EV' or f[3] == '-':
+        return res
+    for h in f[3].split(';'):
+        p = h.split(':')
+        res[p[0]] = (p[1] == '1', p[2] == '1', [] if p[5] == '-' else p[5].split(','))
+    return res
+
+
+def _norm_trace(trace, case):
+    if not trace:
+        return trace
+    sigs = _host_param_types(case)
+    calls = []
+    for c in trace.split(';'):
+        m = re.match(r'^(\d+)\((.*)\)$', c)
+        if not m:
+            calls.append(c)
+            continue
+        ctx, variadic, types = sigs.get(m.group(1), (False, False, []))
+        # token positions of top-level scalar arguments whose parameter type is float32
+        args = m.group(2)
+        toks = args.split(' ') if args else []
+        f32 = set()
+
+        def skip(i):
+            """index after the value starting at token i"""
+            t = toks[i]
+            if t.startswith('A') and t[1:].isdigit():
+                j = i + 1
+                for _ in range(int(t[1:])):
+                    j = skip(j)
+                return j
+            if t.startswith('O') and t[1:].isdigit():
+                j = i + 1
+                for _ in range(int(t[1:])):
+                    j = skip(j + 1)
+                return j
+            return i + 1
+        i = 0
+        argno = 0
+        try:
+            while i < len(toks):
+                t = types[argno] if argno < len(types) else (types[-1] if (variadic and types) else '')
+                if variadic and types and argno >= len(types) - 1:
+                    t = types[-1]
+                if t == 'f32':
+                    f32.add(i)
+                i = skip(i)
+                argno += 1
+        except (IndexError, ValueError):
+            pass
+        calls.append('%s(%s)' % (m.group(1), _norm_floats(args, f32)))
+    return ';'.join(calls)
+
+
+def proj_eval_result(obs, case=None):
+    """the outcome only: value (numbers by value) | E (an inner panic is an error at the entry point)"""
+    if obs in ('parse-error',):
+        return obs
+    out = obs.split('|')[0]
+    if out == 'P':
+        out = 'E'
+    return _norm_floats(out)
+
+
+def proj_eval_class(obs, case=None):
+    """value or error"""
+    if obs in ('parse-error',):
+        return obs
+    out = obs.split('|')[0]
+    if out == 'U':
+        return 'U'
+    return 'E' if out in ('P', 'E') else 'V'
+
+
+def proj_eval_full(obs, case=None):
+    """outcome, final data map (locals included) and the recorded host calls in order"""
+    if obs in ('parse-error',):
+        return obs
+    p = obs.split('|')
+    if len(p) < 3:
+        return obs
+    return '|'.join([proj_eval_result(obs), _norm_floats(p[1]), _norm_trace(p[2], case)])
+
+
+def proj_eval_calls(obs, case=None):
+    """C11: value-or-error, and the recorded invocations with their converted arguments"""
+    if obs in ('parse-error',):
+        return obs
+    p = obs.split('|')
+    if len(p) < 3:
+        return obs
+    return proj_eval_result(obs) + '|' + _norm_trace(p[2], case)
+
+
+def proj_history(obs, case=None):
+    return ';'.join('E' if x == 'P' else _norm_floats(x) for x in obs.split(';'))
+
+
+EV_TRUST = ['decimal arithmetic is modelled by its specification (Num/Dec.v: exact result, one half-even rounding to 34 digits; '
+            'github.com/ericlagergren/decimal is not verified); reflect, strings, time (fixed-offset zones), strconv shortest float '
+            'formatting are modelled, not verified',
+            'cases on which the model answers Unk (behaviour not modelled: NaN payload text, %v of exotic Go values, out-of-range '
+            'float-to-int conversion, non-ASCII case mapping, regexp, transcendental functions, time layouts) are excluded from the '
+            'comparison and counted in the evidence']
+
+prop('C03', obligations=['Props/C03.vo'],
+     suites=[dict(name='evalcore', project=proj_eval_class, definitive=False, what='value/error class differs from the evaluator model that is proved total'),
+             dict(name='misuse', project=proj_eval_class, definitive=False, what='value/error class differs from the evaluator model')],
+     rule='random grammar-directed programs over operators, keywords, builtin and data names against 6 data maps incl. odd kinds '
+          '(uint8, typed nil pointer, struct, time, nested maps, host functions); 100 misuse programs each required to return an error; '
+          'all name-op-name / name(name) / name.name programs over 16 names x 16 operators; oracle on the public entry: no panic, '
+          'value xor error; distinct = distinct (formula, data); non-trivial = at least 3 tokens', trust=EV_TRUST)
+prop('C04', obligations=['Props/C04.vo'],
+     suites=[dict(name='arith', project=proj_eval_result, definitive=True, what='the numeric result differs from the exact-then-round-half-even model proved correct')],
+     rule='operand pairs with 1-34 digit coefficients (random, all 9s, powers of ten, 5*10^k, near ties), exponents -30..30, both signs, '
+          'under + - * / %, chains of up to 4 operations, a 15x5x2 grid exhaustively (sampled in quick), int64/int/float64 data values '
+          'incl. +-2^53+1, +-2^63 bounds, subnormals, 1e22/1e23; final float64 judged against the correctly rounded conversion of the '
+          'decimal result; distinct = distinct formula+data; all non-trivial',
+     trust=EV_TRUST + ['the final float64 is judged by strconv.ParseFloat (correctly rounded) of the decimal result; not proved in Coq'])
+prop('C05', obligations=['Props/C05.vo'],
+     suites=[dict(name='compare', project=proj_eval_result, definitive=True, what='comparison result differs from the proved model')],
+     rule='all ordered pairs of a 35-value grid (numbers in varied spellings and scales, negative zero, 34-digit values, results of '
+          'arithmetic, strings incl. multi-byte, booleans, null) x 8 operators, plus random operand pairs incl. equal values in '
+          'different spellings; law oracles on the implementation (trichotomy, disjunctions, negations)', trust=EV_TRUST)
+prop('C06', obligations=['Props/C06.vo'],
+     suites=[dict(name='truthy', project=proj_eval_full, definitive=True, what='selected value, final locals or recorded host calls differ from the proved model')],
+     rule='30 condition values (null, booleans, zeros, NaN, infinities, strings, arrays, maps, time, functions, nil pointer, int8 0) x 6 '
+          'branch values x the six selection operators, branches with assignments and recording host functions, random nestings to depth 3', trust=EV_TRUST)
+prop('C07', obligations=['Props/C07.vo'],
+     suites=[dict(name='locals', project=proj_eval_full, definitive=True, what='result, final data map or call order differs from the store-passing model')],
+     rule='every accepted sequence of 3..5 lexemes over {$a,$b,x,=,,,1,(,),[,],+,f}, 32 hand-picked formulas (forbidden targets, '
+          're-assignment, read-before-write, assignment inside arguments and branches) x 3 data maps with shared sub-objects, random '
+          'programs; deep snapshot of all non-$ entries before/after on the implementation', trust=EV_TRUST)
+prop('C10', obligations=['Props/C10.vo'],
+     suites=[dict(name='fields', project=ident, definitive=True, what='reported field set (or refusal) differs from the proved analysis model')],
+     rule='every accepted sequence of up to 4 lexemes over an 18-lexeme alphabet, random programs with dotted paths, calls, assignments, '
+          'conditionals, arrays, typeof, spread; sets compared sorted; sufficiency judged on the implementation (full vs restricted data map)')
+prop('C11', obligations=['Props/C11.vo'],
+     suites=[dict(name='bridge', project=proj_eval_calls, definitive=True, what='call/no-call, converted arguments or outcome differ from the proved bridge model')],
+     rule='all signatures with 0..1 parameters over 19 parameter types x context x variadic, every argument list of length 0..1 (0..2 for '
+          'variadic) over a 21-value grid with and without spread; result kinds x failing x result count; random signatures of up to 3 '
+          'parameters with argument lists of length 0..n+2; host functions are synthesised with reflect.MakeFunc and record every invocation', trust=EV_TRUST)
+prop('C12', obligations=['Props/C12.vo'],
+     suites=[dict(name='literals', project=proj_eval_result, definitive=True, what='literal value (or acceptance) differs from the proved scanner+decimal model')],
+     rule='every spelling of up to 5 characters over {0,1,9,.,e,E,+,-,_} starting with a digit or a dot, in 6 contexts; random spellings with '
+          'parts of up to 40 digits, separators, and injected faults', trust=EV_TRUST)
+prop('C13', obligations=['Props/C13.vo'],
+     suites=[dict(name='strings', project=proj_eval_result, definitive=True, what='string literal value differs from the text / the proved scanner model')],
+     rule='every text of up to 2 symbols over a 27-symbol alphabet (ASCII, controls, both quotes, backslash, 2/3/4-byte UTF-8, U+0085, '
+          'U+2028/9, invalid bytes) x both quotes x 2 random choices among the equivalent escape forms; random longer texts; open literals')
+prop('C16', obligations=['Props/C16.vo'],
+     suites=[dict(name='names', project=proj_eval_result, definitive=True, what='lookup result differs from the proved model')],
+     rule='every dotted path of depth 0..2 over 14 roots and a 10-key universe with . and !. at every position against a nested data map '
+          '(maps, nil, typed nil, every scalar kind, keys colliding with builtin names), each also compared with null; unset and empty maps', trust=EV_TRUST)
+prop('C17', obligations=['Props/C17.vo'],
+     suites=[dict(name='strfun', project=proj_eval_result, definitive=True, what='string builtin result differs from the proved model')],
+     rule='all (s,t) over {a,b} up to length 4/3 for prefix/suffix/substring/index/replace, every position -2..len+2 for left/right/mid/'
+          'lpad/rpad, the algebraic laws on the implementation, trim/lower/upper incl. non-ASCII against Go strings, join/includes, regexp '
+          'against RE2 for 19 patterns x 10 subjects', trust=EV_TRUST)
+prop('C18', obligations=['Props/C18.vo'],
+     suites=[dict(name='numfun', project=proj_eval_result, definitive=True, what='numeric builtin / bit operator result differs from the proved model')],
+     rule='34 hand-picked arguments (ties, signs, zero, near-integers) x 13 builtins; random arguments of 1-15 digits and exponent -15..15; '
+          'max/min over lists of length 1..6; bit operators over integer pairs below 2^53 against two\'s-complement; sqrt/exp/ln/log '
+          'against float64 math where well-conditioned (13 digits) and through the inverse laws',
+     trust=EV_TRUST + ['sqrt, exp, ln, log are not modelled: judged pointwise against float64 math and the inverse laws only'])
+prop('C19', obligations=['Props/C19.vo'],
+     suites=[dict(name='datefun', project=proj_eval_result, definitive=True, what='date builtin result differs from the proved calendar model')],
+     rule='17 years x 16 months (-40..60) x 13 days (-40..366) grid in zones UTC, +05:30, -03:00; random dates of years 1..9999, shifts, '
+          'times of day, known and unknown fixed-offset zones; DST zones, timeFormat, now/toDay judged on the implementation alone',
+     trust=EV_TRUST + ['zones with daylight saving are outside the model (fixed offsets only)'])
+prop('C20', obligations=['Props/C20.vo'],
+     suites=[dict(name='runner', project=proj_history, definitive=True, what='history observations differ from the proved runner model')],
+     rule='every operation sequence of length <= 3 over 21 operations (SetThis of 3 caller maps / nil, SetThisValue, Set, Get, caller '
+          'write, 9 formulas reading and assigning locals and fields) containing an observation; random histories of length 4..30', trust=EV_TRUST)
+
 # ------------------------------------------------------------------ decision procedure
 
 def theorem_names(V, pid):
@@ -246,6 +455,7 @@ def check(V, pid, tier, seed):
     stats = {}
     notes = []
     exhaustive_notes = []
+    unmodelled = 0
     for s in cfg['suites']:
         outdir = os.path.join(V.WORK, 'run', pid + '_' + s['name'])
         r = V.run_suite(s['name'], tier, seed, outdir)
@@ -258,10 +468,21 @@ def check(V, pid, tier, seed):
         stats[s['name']] = r['stats'].get('stats', {})
         notes += (r['stats'].get('notes') or [])
         proj = s.get('project', ident)
+
+        def P(x, c):
+            try:
+                return proj(x, c)
+            except TypeError:
+                return proj(x)
         for i, (c, a, m) in enumerate(zip(r['cases'], r['impl'], r['model'])):
             if a == m:
                 continue
-            pa, pm = proj(a), proj(m)
+            pa, pm = P(a, c), P(m, c)
+            if pa == pm:
+                continue
+            if pm.startswith('U') or ';U' in pm or re.search(r'(^| |\()X( |$|\||\))', pm):
+                unmodelled += 1
+                continue
             if pa == pm:
                 continue
             rec = dict(suite=s['name'], case=c, observed=pa, required=pm, what=s['what'])
@@ -322,7 +543,7 @@ def check(V, pid, tier, seed):
                             evaluations=evaluations, distinct_nontrivial=nontrivial, rule=cfg.get('rule', ''),
                             samples=samples[:12] or ['(no dynamic cases)'],
                             generator_distribution=stats, notes=notes,
-                            correspondence_differences=len(corr), violating_cases=len(new_viol),
+                            correspondence_differences=len(corr), violating_cases=len(new_viol), unmodelled_cases_skipped=unmodelled,
                             known_findings_seen=sorted(seen)),
               assumptions=trusted, wall_s=round(time.time() - t0, 2), violations=len(new_viol) + (1 if (corr or broken) and not new_viol else 0))
     os.makedirs(os.path.join(V.VERIF, 'evidence'), exist_ok=True)
